@@ -1,0 +1,27 @@
+//go:build verif
+
+package vgirpc
+
+// Verification hooks for property C40 (concurrent serving, lazy setup runs
+// once). Add-only, compiled in only under the `verif` build tag.
+
+// VerifC40Notify exposes Server.notifyTransport: the lazy transport binding
+// every transport entry point (ServeHTTP, Serve, ServeUnix, ServeTCP) calls
+// before dispatching.
+func VerifC40Notify(s *Server, kind TransportKind, capabilities map[string]bool) error {
+	return s.notifyTransport(kind, capabilities)
+}
+
+func init() {
+	verifConstProviders = append(verifConstProviders, func() []VerifConst {
+		return []VerifConst{
+			// the zero value a fresh Server starts with, then the kinds the
+			// shipped transports announce
+			verifList("c40_kinds", []string{
+				string(NewServer().TransportKind()),
+				string(TransportKindPipe), string(TransportKindHTTP),
+				string(TransportKindUnix), string(TransportKindTcp),
+			}),
+		}
+	})
+}
